@@ -51,6 +51,7 @@ fn files_basic() -> Vec<FileSpec> {
         seed: 7,
         method,
         enc,
+        locale: 0,
     };
     vec![
         f("raw_single.bin", ContentClass::Random, 0, 300, M_NONE, Enc::None),
@@ -75,6 +76,7 @@ fn files_many(n: usize, seed: u32) -> Vec<FileSpec> {
             seed: seed * 100_000 + i as u32,
             method: if i % 3 == 0 { M_ZLIB } else { M_NONE },
             enc: Enc::None,
+            locale: 0,
         })
         .collect()
 }
@@ -99,6 +101,7 @@ fn kinds() -> Vec<KindDef> {
         seed: 0, // 72 zero bytes
         method: M_NONE,
         enc: Enc::None,
+        locale: 0,
     });
     vec![
         KindDef { name: "sector-crc", spec: base(1, Attrs::CrcsThenNone, true, files_basic()), signed: false, protects: &["file-data"], prefix: 0, intact_only: false },
